@@ -111,6 +111,46 @@ class QFact:
         self.trigger = trigger
 
 
+FLATTEN = [False]
+
+
+def _flatten_forall(f, depth=0):
+    """forall x. (c(x) => forall y. B(x,y))  ==  forall x,y. (c(x) => B(x,y)): one quantified fact instead of a nest, so that
+    one instantiation round reaches the body."""
+    if not FLATTEN[0] or depth > 3:
+        return QFact(f.arity, f.fn, f.label)
+    probe = [fresh('probe') for _ in range(f.arity)]
+    try:
+        body = f.fn(*probe)
+    except Exception:
+        return QFact(f.arity, f.fn, f.label)
+    inner = body.body if isinstance(body, FImp) else body
+    if not isinstance(inner, FForall):
+        return QFact(f.arity, f.fn, f.label)
+    n1, n2 = f.arity, inner.arity
+
+    def fn(*a, f=f, n1=n1):
+        b = f.fn(*a[:n1])
+        if isinstance(b, FImp) and isinstance(b.body, FForall):
+            return f_imp(b.cond, b.body.fn(*a[n1:]))
+        if isinstance(b, FForall):
+            return b.fn(*a[n1:])
+        # the shape of the body depends on the instance (it simplified): fall back to the nested reading
+        if is_qf(b):
+            return b
+        raise _NoFlatten()
+    g = FForall(n1 + n2, fn, f.label)
+    try:
+        fn(*[fresh('probe') for _ in range(n1 + n2)])
+    except _NoFlatten:
+        return QFact(f.arity, f.fn, f.label)
+    return _flatten_forall(g, depth + 1)
+
+
+class _NoFlatten(Exception):
+    pass
+
+
 def to_facts(f, out_qf, out_q):
     """Decompose a hypothesis formula into QF facts and QFacts."""
     if is_qf(f):
@@ -127,7 +167,7 @@ def to_facts(f, out_qf, out_q):
         for q in sub_q:
             out_q.append(QFact(q.arity, (lambda q=q, c=c: (lambda *a: f_imp(c, q.fn(*a))))(), q.label, q.trigger))
     elif isinstance(f, FForall):
-        out_q.append(QFact(f.arity, f.fn, f.label))
+        out_q.append(_flatten_forall(f))
     elif isinstance(f, FExists):
         w = fresh('ex')
         to_facts(f.fn(w), out_qf, out_q)
@@ -477,6 +517,16 @@ def sum_pair_axiom(sf1, a1, sf2, a2):
 # --------------------------------------------------------------------------
 
 MAX_TUPLES = 400
+DEADLINE = [None]
+
+
+class InstTimeout(Exception):
+    pass
+
+
+def _check_deadline():
+    if DEADLINE[0] is not None and time.time() > DEADLINE[0]:
+        raise InstTimeout()
 
 
 def instantiate(ground, qfacts, registry, rounds=2, hints=(), max_insts=6000, use_sums=True, goal=None):
@@ -497,6 +547,7 @@ def instantiate(ground, qfacts, registry, rounds=2, hints=(), max_insts=6000, us
                 for t in tup:
                     priority[t.get_id()] = t
     for rnd in range(rounds):
+        _check_deadline()
         idx, apps, by_arr = collect(work + added)
         singles = {}
         for ar, d in idx.items():
@@ -575,6 +626,7 @@ def instantiate(ground, qfacts, registry, rounds=2, hints=(), max_insts=6000, us
                 if qfct.arity == 1:
                     # skolem constants and explicit hints are always tried
                     cands = list(cands) + [(t,) for t in extra_terms]
+            _check_deadline()
             for tup in cands:
                 key = (id(qfct),) + tuple(t.get_id() for t in tup)
                 if key in seen_inst:
@@ -582,7 +634,10 @@ def instantiate(ground, qfacts, registry, rounds=2, hints=(), max_insts=6000, us
                 seen_inst.add(key)
                 if len(seen_inst) > max_insts:
                     break
-                f = qfct.fn(*tup)
+                try:
+                    f = qfct.fn(*tup)
+                except _NoFlatten:
+                    continue
                 qf, q = [], []
                 to_facts(f, qf, q)
                 new.extend(qf)
